@@ -384,6 +384,20 @@ def conclude(check, tier, seed, results, timer, extra_coverage=None):
         else:
             new_by_key.setdefault(report.key_str(v["key"]), []).append(v)
     for ks, (rec, c) in sorted(known_hits.items()):
+        limit = rec.get("max_fraction_of_entry_runs")
+        if limit is not None:
+            # A listed call site that fails far more often than it does on the unchanged tree is not the
+            # listed finding any more (its condition - "rare, on small or awkward spectra" - no longer holds):
+            # the hits are reported as a new violation class.  Frequencies are per entry point.
+            vs = [v for v in violations if report.match_known([rec], v["key"]) is not None]
+            per_entry = Counter(v["workload"]["entry"] for v in vs)
+            over = [(e, n, entries[e]) for e, n in per_entry.items() if entries[e] >= 100 and n > limit * entries[e]]
+            if over:
+                e, n, tot = over[0]
+                for v in vs:
+                    v["detail"] = f"[listed call site, but it fails in {n} of {tot} {e} runs - the listed finding occurs in at most {limit:.0%}] " + v["detail"]
+                new_by_key.setdefault(report.key_str(vs[0]["key"]), []).extend(vs)
+                continue
         print(f"KNOWN-FINDING: property={prop} {rec['what']} [key={ks} hits={c}]")
     exit_code = 0
     n_reported = 0
